@@ -23,7 +23,7 @@ RULE = ("one run = document + history of adds/renames to fresh and used identifi
         "distinct = distinct (namespace digest, op) pairs")
 PROBES = ["virtual_link_named", "dup_same_type", "dup_other_type", "dup_vs_id_tag", "rename_used", "rename_fresh", "group_merge",
           "int_names", "unused_name", "lookup_unused", "complement_link", "mention_clash", "self_mention",
-          "refused_fresh"]
+          "refused_fresh", "self_mention_clone"]
 
 
 def gen(streams, tier, i):
@@ -133,6 +133,10 @@ def gen(streams, tier, i):
                                 "E\t*\t%s+\t%s-\t0\t1\t0\t1\t*" % (a, b),
                                 "F\t%s\tread1+\t0\t1\t0\t1\t*" % bad])
             ops.append({"op": "add", "line": ln, "as": hr.choice(["str", "obj"])})
+        elif r < 0.745 and names:
+            # a line of the Gfa is cloned, the clone is given the identifier of one of its own references and added
+            # (a clone keeps its references in written form)
+            ops.append({"op": "self_mention_clone", "i": hr.randrange(1000), "j": hr.randrange(1000)})
         elif r < 0.76:
             # a line with a fresh identifier that is refused while its references are resolved (not by the
             # duplicate search): begin > end, too many overlaps, a reference without orientation
@@ -327,14 +331,39 @@ def run(scn, st):
         if kind == "vlink_clash":
             vlink_clash(w, g, op, st, n)
             return
-        if kind == "refused_add":
+        if kind == "self_mention_clone":
+            cands = [l for l in ob.listed_lines(g) if l.record_type in ("E", "G", "O", "U", "P") and not l.virtual
+                     and isinstance(l.name, str)]
+            if not cands:
+                continue
+            src = cands[op["i"] % len(cands)]
+            refs = sorted(set(x for x in m.mentions(gtext.tokenize(ob.line_text(src), version)) if x != src.name))
+            if not refs:
+                continue
+            y = refs[op["j"] % len(refs)]
+            c = core.call(src.clone)
+            if not c.ok:
+                continue
+            core.call(setattr, c.value, "name", y)
+            pre_names = sorted(x for x in g.names if isinstance(x, str))
+            out = core.call(g.add_line, c.value)
+            st.count("probe.self_mention_clone")
+            st.count("oracle.self_mention_clone")
+            if out.ok:
+                raise core.Violation("self-mention-accepted", "step %d: a clone of %r renamed to %r (one of its own "
+                                     "references) was accepted" % (n, ob.line_text(src), y), op=kind, rt=src.record_type)
+            if sorted(x for x in g.names if isinstance(x, str)) != pre_names:
+                raise core.Violation("lookup-ghost", "step %d: the refused clone of %r renamed to %r changed the names: %r" %
+                                     (n, ob.line_text(src), y, sorted(x for x in g.names if isinstance(x, str))), op=kind,
+                                     rt=src.record_type)
+        elif kind == "refused_add":
             out = w.apply(dict(op, op="add"))
             if out.ok:
                 m.unspecified = "malformed line accepted (no validation promised at this level)"
                 return
             st.count("probe.refused_fresh")
             ghost_check(g, m, op["id"], op["line"], n, st)
-        if kind == "refused_add":
+        if kind in ("refused_add", "self_mention_clone"):
             pass
         elif kind == "add":
             exp = expected_add(m, op["line"])
